@@ -135,6 +135,8 @@ TEMPLATES = {
                'sequence-Roman>.<dtml-var sequence-roman>.<dtml-var '
                'sequence-number>,</dtml-in>',
     'tiny': 'a<dtml-var x>b',
+    'empty': '',                # no source at all, and text without a tag
+    'textonly': 'just text & <b>',
     # line ends of other conventions: the source text is what it is,
     # however often it is read and compiled
     'crlf': '<dtml-if c>\r\r\n<dtml-var x>\r\n<dtml-else>\r\r\nn\r</dtml-if>'
@@ -342,7 +344,8 @@ def cases(tier):
         for k in range(4):
             yield {'tmpl': name, 'fam': 'steady', 'threads': 2, 'bound': 2,
                    'shard': [k, 4], 'sites': sites}
-    quick_compile = ('var', 'if', 'insortexpr', 'with', 'try', 'crlf')
+    quick_compile = ('var', 'if', 'insortexpr', 'with', 'try', 'crlf',
+                     'empty', 'textonly')
     for name in names:
         for fam in ('steady', 'compile'):
             if fam == 'compile' and tier == 'quick' and \
